@@ -194,7 +194,11 @@ def gen(prop, seed, tier):
     replies = [b"OK", b"NO", b"OK successfully authenticated", b"NO wrong credentials", b"OKAY", b"ok", b"O", b"", b"K", b"OK\x00",
                b"NOOK", b" OK", b"XOK", b"OK" + b"x" * 254, b"OK" + b"x" * 255, b"NO" + b"y" * 300]
     # (1) every reply in the corpus, whole
+    replies += [b"NO" + b"y" * 253, b"NO" + b"y" * 254, b"NO" + b"y" * 255, b"N" * 256, b"N" * 257, b"\xff" * 300]
     for rp in replies:
+        # the log lines of the debug option see the reply too
+        add("reply/whole+debug", chunks=[(0, part(rp))], opts=[b"debug"])
+        add("reply/whole+debug+first-pass", chunks=[(0, part(rp))], opts=[b"debug", b"use_first_pass"], stack=b"stackpw")
         add("reply/whole", chunks=[(0, part(rp))])
         add("reply/two-chunks", chunks=[(0, part(rp)[:1]), (20, part(rp)[1:])])
         add("reply/trailing", chunks=[(0, part(rp) + b"trailing")])
@@ -207,6 +211,9 @@ def gen(prop, seed, tier):
     for L, body in [(257, b"OK" + b"z" * 255), (300, b"OK" + b"z" * 298), (65535, b"OK" + b"z" * 300), (2, b"OKxx"), (1, b"OK"), (0, b"OK"),
                     (256, b"OK" + b"z" * 254), (256, b"OK" + b"z" * 100), (5, b"OK")]:
         add("reply/length-%d" % L, chunks=[(0, bytes([L >> 8, L & 255]) + body)])
+        add("reply/length-%d+debug" % L, chunks=[(0, bytes([L >> 8, L & 255]) + b"NO" + body[2:])], opts=[b"debug"])
+    for L in (257, 300, 4096, 65535):
+        add("reply/long-garbage-%d+debug" % L, chunks=[(0, bytes([L >> 8, L & 255]) + b"\x01" * min(L, 4096))], opts=[b"debug"])
     # (4) users and passwords: empty, 255/256/257, several KiB; options
     for ul in [0, 1, 255, 256, 257, 5000]:
         for pl in [0, 1, 255, 256, 257, 5000]:
